@@ -547,6 +547,11 @@ func genStanza(r *rand.Rand, kind, typ, ns string, id int) *El {
 	if r.Intn(4) == 0 {
 		e.Fill = 1 + r.Intn(3)
 	}
+	if kind != "iq" && r.Intn(40) == 0 {
+		// a large stanza: hundreds of tokens in front of every payload, so that
+		// later payloads lie far behind whatever the multiplexer keeps ready
+		e.Fill = 300 + r.Intn(1200)
+	}
 	// character data before, between and after the payloads, and stanzas whose
 	// only content is character data
 	if r.Intn(5) == 0 {
